@@ -183,7 +183,31 @@ class NumEval:
         if k == 'tuple' or k == 'list':
             el = [self.ev(x, d) for x in t[1]]
             return AV(kind='tuple', elems=el)
+        if k == 'global':
+            from .util import global_value_term
+            gv = global_value_term(self.repo, t[1])
+            if gv is not None and gv[0] in ('const', 'tuple', 'list', 'bin', 'un'):
+                return self.ev(gv, d - 1 if d else d)
         if k == 'sub':
+            # literal dictionaries: d['k'] is the entry written in the literal; module-level
+            # constant tables are looked through
+            base_t = t[1]
+            if base_t[0] == 'global':
+                from .util import global_value_term
+                gv = global_value_term(self.repo, base_t[1])
+                if gv is not None and gv[0] == 'dict':
+                    t = ('sub', gv, t[2])
+                    base_t = gv
+            elif base_t[0] == 'sub' and base_t[1][0] == 'global':
+                from .util import global_value_term
+                gv = global_value_term(self.repo, base_t[1][1])
+                if gv is not None and gv[0] == 'dict':
+                    t = ('sub', ('sub', gv, base_t[2]), t[2])
+                    base_t = t[1]
+            if base_t[0] == 'dict' and t[2][0] == 'const':
+                hit = [v for kk, v in base_t[1] if kk == t[2]]
+                if len(hit) == 1:
+                    return self.ev(hit[0], d)
             tab = self.dict_table(t, d)
             if tab is not None:
                 return tab
@@ -309,11 +333,21 @@ class NumEval:
 
     # ------------------------------------------------------------------------------------
     def term_inputs(self, t: Term, d: int) -> set:
+        """Inputs a term's VALUE can depend on.  A subscript of a literal dictionary depends
+        only on the selected entry, not on everything written in the literal."""
+        r = self.inputs(t)
+        if r is not None:
+            return set(r.inputs())
+        if isinstance(t, tuple) and t and t[0] == 'sub' and t[1][0] == 'dict' and \
+                t[2][0] == 'const':
+            hit = [v for kk, v in t[1][1] if kk == t[2]]
+            if len(hit) == 1:
+                return self.term_inputs(hit[0], d)
         out = set()
-        for x in subterms(t):
-            r = self.inputs(x)
-            if r is not None:
-                out |= r.inputs()
+        if isinstance(t, tuple):
+            for x in t:
+                if isinstance(x, tuple):
+                    out |= self.term_inputs(x, d)
         return out
 
     def cond_inputs(self, c: Term, d: int) -> set:
